@@ -32,6 +32,13 @@ Oracle after each injected failure (all observed from outside the code under tes
     because the order in which same-class pending objects receive autoincrement ids is
     not deterministic across runs after an expunge -- ``insert_order`` ties).
 
+The fault-free twin is itself a replay of the recorded ops on a fresh rig; a history whose
+replay does not reproduce the generating run is not used.  Before the rerun everything is
+expired again (step 4 loaded it; a rollback leaves everything expired and the op guards
+look at what is loaded); a rerun in which a guard refuses an op is counted, not judged.
+Row switches (delete + add of the same primary key) are kept out of the tails: whether
+the dependents of the replaced row are nulled was seen to differ between identical runs.
+
 Guards: a replay that diverges from the dry run (an op skipped by its guard, the fault
 point not reached) is counted and not judged.  The tail runs with autoflush off so that
 all its DML belongs to the one flush whose statements are enumerated.  Exception *types*
@@ -66,9 +73,10 @@ KNOBS = [
 ]
 PREFIX_W = {"new": 45, "flush": 4, "commit": 2, "del": 3, "exp": 0, "readd": 0, "rowswitch": 0, "cycdel": 1}
 TAIL_W = {"new": 22, "set": 14, "m2o": 12, "app": 8, "rem": 8, "repl": 3, "clr": 2, "pop": 2, "del": 16, "cycdel": 0,
-          "exp": 0, "readd": 0, "merge": 0, "rowswitch": 2, "pk": 0, "flush": 0, "commit": 0, "rollback": 0,
+          "exp": 0, "readd": 0, "merge": 0, "rowswitch": 0, "pk": 0, "flush": 0, "commit": 0, "rollback": 0,
           "nest": 0, "spc": 0, "spr": 0, "close": 0, "expire": 0, "expall": 0, "refresh": 0, "get": 0, "touch": 3}
 KINDS = ("integrity", "operational-after", "runtime")
+DROPPED = "collection-member-dropped-from-session-not-inserted"   # judged by C30 only
 
 
 class Diverged(Exception):
@@ -129,7 +137,33 @@ def generate(ctx, R, zoo, tpl, rng, fams, nested):
         if N == 0:
             ctx.count("histories_without_dml")
             return None
-        return prefix, tail, N, M, R.canon_dump(zoo, rig.dump(rig.read_committed))
+        d_gen = R.canon_dump(zoo, rig.dump(rig.read_committed))
+    finally:
+        rig.close()
+    # the fault-free twin is a *replay* of the recorded ops on a fresh rig (the generating
+    # run also executed guard-refused ops whose loads are not recorded); a history whose
+    # replay does not reproduce the generating run is not used
+    rig = R.Rig(zoo, tpl, ctx.tmppath(".db"), expire_on_commit=True)
+    it = R.Interp(rig)
+    try:
+        try:
+            replay(it, prefix)
+            rig.session.autoflush = False
+            replay(it, tail)
+            mark = rig.spy.mark()
+            h0 = rig.hooks_fired
+            rig.session.flush()
+            N = len(rig.dml_since(mark))
+            M = rig.hooks_fired - h0
+            rig.session.commit()
+        except (Diverged, sa.exc.SQLAlchemyError):
+            ctx.count("histories_not_reproducible")
+            return None
+        d_twin = R.canon_dump(zoo, rig.dump(rig.read_committed))
+        if d_twin != d_gen or N == 0:
+            ctx.count("histories_not_reproducible")
+            return None
+        return prefix, tail, N, M, d_twin
     finally:
         rig.close()
 
@@ -291,7 +325,7 @@ def run_point(ctx, R, zoo, tpl, kd, prefix, tail, D_ok, point, kind, commit_firs
                 vio("attribute-access-after-savepoint-recovery-raised", f"{type(e).__name__}: {str(e)[:200]}")
                 return
             cnt = {}
-            for f in R.relation(rig, R.snapshot(rig), rig.read_committed, cnt):
+            for f in [x for x in R.relation(rig, R.snapshot(rig), rig.read_committed, cnt) if x.mechanism != DROPPED]:
                 vio("after-savepoint-recovery-" + f.mechanism, f.summary, {"detail": f.detail})
             for k2, v in cnt.items():
                 ctx.count(k2, v)
@@ -348,11 +382,13 @@ def run_point(ctx, R, zoo, tpl, kd, prefix, tail, D_ok, point, kind, commit_firs
             vio("attribute-access-after-rollback-raised", f"{type(e).__name__}: {str(e)[:200]}")
             return
         cnt = {}
-        for f in R.relation(rig, R.snapshot(rig), rig.read_committed, cnt):
+        for f in [x for x in R.relation(rig, R.snapshot(rig), rig.read_committed, cnt) if x.mechanism != DROPPED]:
             vio("after-rollback-" + f.mechanism, f.summary, {"detail": f.detail})
         for k2, v in cnt.items():
             ctx.count(k2, v)
-        # ---- (5) rerun
+        # ---- (5) rerun.  Step (4) loaded everything; the guards of the ops look at what is
+        # loaded, so go back to the all-expired state a rollback leaves behind.
+        rig.session.expire_all()
         it2 = R.Interp(rig)
         it2.txn_base = base
         try:
@@ -360,7 +396,7 @@ def run_point(ctx, R, zoo, tpl, kd, prefix, tail, D_ok, point, kind, commit_firs
             rig.session.flush()
             rig.session.commit()
         except Diverged as e:
-            vio("rerun-op-not-applicable-after-rollback", f"op {e.args[0]} applied in the first attempt but its guard refuses it after rollback")
+            ctx.count("reruns_diverged")   # a guard refused an op: not judged
             return
         except Exception as e:
             vio("rerun-after-rollback-raised", f"{type(e).__name__}: {str(e)[:200]}")
